@@ -537,7 +537,9 @@ def run(ctx):
                 cls = natural_class(ks, inp) if v[0] in ("ordered by the keys in precedence order", "the sort is stable: groups that compare equal keep their first-appearance order") else "other"
                 oracle_bad.append(dict(base, law=v[0] + " (documented natural order)", pair=v[1], **{"class": cls}))
             continue
-        terms.append(term(3 if kind in ("dsl", "map") else 0, ks, inp, out)); meta.append((kind, ks, args, inp, out))
+        ngroups_ = len({tuple(dict(r).get(k) for k, _ in ks) for r in inp if all(k in dict(r) for k, _ in ks)})
+        # at most 20 groups: sort.SliceStable is insertion sort, the verb model predicts the output exactly (kind 6)
+        terms.append(term(3 if kind in ("dsl", "map") else 6 if ngroups_ <= 20 else 0, ks, inp, out)); meta.append((kind, ks, args, inp, out))
         if kind == "natpair":
             if sorted(map(tuple, out)) != sorted(map(tuple, inp)):
                 oracle_bad.append(dict(base, law="output is a permutation of the input, records unchanged", **{"class": "other"}))
